@@ -221,6 +221,146 @@ def returners (r : Run) : List Who :=
 /-- number of read() calls the caller makes -/
 def reads (pf : PFault) : Nat := pf.eintr + 1
 
+/-! ## (iii) the Command as a reusable builder: `spawn(&mut self)` may be called any number of times -/
+
+/-- `Stdio` as the caller configures it.  `rawFd` is a descriptor of the caller's (its number plays no role here:
+    the descriptor table is not modelled, see `NoRaw`). -/
+inductive Stdio where
+  | inherit | null | makePipe | rawFd
+deriving DecidableEq, Repr
+
+/-- the whole `Command`: bin/args/argv/env (`Cmd`) and every other field `spawn` reads.  cwd/uid/gid/pgroup are
+    `Option`s in the code; the model keeps whether they are set.  `closures` = number of registered pre-exec
+    closures (what each of them returns is the environment's answer, `CFault`). -/
+structure Builder where
+  cmd : Cmd
+  stdin : Option Stdio
+  stdout : Option Stdio
+  stderr : Option Stdio
+  cwd : Bool
+  uid : Bool
+  gid : Bool
+  pgroup : Bool
+  closures : Nat
+deriving DecidableEq, Repr
+
+/-- `Command::new` -/
+def newB (start : Bool) (bin : Nat) : Builder :=
+  ⟨new start bin, Option.none, Option.none, Option.none, false, false, false, false, 0⟩
+
+/-- one builder call -/
+inductive BOp where
+  | cmd (o : Op)
+  | stdin (s : Stdio) | stdout (s : Stdio) | stderr (s : Stdio)
+  | cwd | uid | gid | pgroup | preExec
+deriving DecidableEq, Repr
+
+def applyB (fixed start : Bool) (b : Builder) : BOp → Option Builder
+  | .cmd o => (apply fixed start b.cmd o).map fun c => { b with cmd := c }
+  | .stdin s => some { b with stdin := some s }
+  | .stdout s => some { b with stdout := some s }
+  | .stderr s => some { b with stderr := some s }
+  | .cwd => some { b with cwd := true }
+  | .uid => some { b with uid := true }
+  | .gid => some { b with gid := true }
+  | .pgroup => some { b with pgroup := true }
+  | .preExec => some { b with closures := b.closures + 1 }
+
+def applyAllB (fixed start : Bool) : Builder → List BOp → Option Builder
+  | b, [] => some b
+  | b, o :: r => (applyB fixed start b o).bind (applyAllB fixed start · r)
+
+/-- `setup_io`: a stream that was never set falls back to the default of `Command::spawn`, `Stdio::Inherit` -/
+def effective : Option Stdio → Stdio
+  | Option.none => .inherit
+  | some s => s
+
+/-- the three streams as the child is to have them, in slot order -/
+def stdioOf (b : Builder) : List Stdio := [effective b.stdin, effective b.stdout, effective b.stderr]
+
+def slotsNotInherit : Nat → List Stdio → List Nat
+  | _, [] => []
+  | i, s :: r => if s = .inherit then slotsNotInherit (i + 1) r else i :: slotsNotInherit (i + 1) r
+
+/-- what `Command::spawn` hands to `do_spawn` (the child-side steps follow from it: `childSteps`) -/
+def configOf (b : Builder) : Config :=
+  ⟨slotsNotInherit 0 (stdioOf b), b.cwd, b.uid, b.gid, b.pgroup, b.closures⟩
+
+/-- what the new image is: the vectors given to execve and the set-up it runs under -/
+structure Image where
+  argv : List Ptr
+  envp : Option (List Ptr)
+  stdio : List Stdio
+  cwd : Bool
+  uid : Bool
+  gid : Bool
+  pgroup : Bool
+  closures : Nat
+deriving DecidableEq, Repr
+
+def imageOf (b : Builder) : Image :=
+  ⟨b.cmd.argv, envpOf b.cmd.env, stdioOf b, b.cwd, b.uid, b.gid, b.pgroup, b.closures⟩
+
+/-- `Child::stdin/stdout/stderr` is `Some` exactly for a MakePipe stream -/
+def pipesOf (b : Builder) : List Bool := (stdioOf b).map (· = .makePipe)
+
+/-- number of pre-exec closures the child has called when it ends (a closure that fails has been called) -/
+def isClosure : CStep → Nat
+  | .closure _ => 1
+  | _ => 0
+
+/-- closure steps among the steps 0..k (inclusive) -/
+def closuresRunUpTo : List CStep → Nat → Nat
+  | [], _ => 0
+  | s :: _, 0 => isClosure s
+  | s :: r, k + 1 => isClosure s + closuresRunUpTo r k
+
+def closuresRun (steps : List CStep) : CFault → Nat
+  | Option.none => closuresRunUpTo steps steps.length
+  | some (k, _) => closuresRunUpTo steps k
+
+/-- what one `spawn` call yields -/
+structure Spawned where
+  run : Run
+  /-- the image the child executes, if it got as far as the exec -/
+  image : Option Image
+  /-- the pipe ends handed to the caller in `Child` (only on Ok) -/
+  pipes : Option (List Bool)
+  /-- pre-exec closures called in the child -/
+  closuresCalled : Nat
+deriving DecidableEq, Repr
+
+/-- `Command::spawn(&mut self)`: the builder afterwards, and the outcome.  Every field is read (the streams are
+    `Copy`, the closures are lent as `&mut [F]` and called only in the forked child): the Command is as before. -/
+def spawnB (fixed : Bool) (b : Builder) (pf : PFault) (cf : CFault) : Builder × Spawned :=
+  let r := spawn fixed (configOf b) pf cf
+  (b, ⟨r,
+    if r.child = some .execd then some (imageOf b) else Option.none,
+    if r.parent = .ok then some (pipesOf b) else Option.none,
+    match r.child with
+    | Option.none => 0
+    | some _ => closuresRun (childSteps (configOf b)) cf⟩)
+
+/-- one round: further builder calls, then a spawn under this round's faults -/
+structure Stage where
+  ops : List BOp
+  pf : PFault
+  cf : CFault
+deriving DecidableEq, Repr
+
+/-- builder calls and spawns interleaved on ONE Command; `none` = an index panic in a builder call -/
+def runStages (fixed start : Bool) : Builder → List Stage → Option (List Spawned)
+  | _, [] => some []
+  | b, s :: r =>
+    (applyAllB fixed start b s.ops).bind fun b1 =>
+      let o := spawnB fixed b1 s.pf s.cf
+      (runStages fixed start o.1 r).map (o.2 :: ·)
+
+/-- the builder before each round's spawn, from the builder calls alone -/
+def buildersOf (fixed start : Bool) : Builder → List (List BOp) → Option (List Builder)
+  | _, [] => some []
+  | b, ops :: r => (applyAllB fixed start b ops).bind fun b1 => (buildersOf fixed start b1 r).map (b1 :: ·)
+
 /-! ## Child::wait / try_wait -/
 
 structure Proc where
